@@ -31,13 +31,15 @@ def _prefixes(name: str) -> list[str]:
     return [".".join(parts[:i]) for i in range(1, len(parts))]
 
 
-MODELS: list[tuple[str, list[str], list[tuple[str, str]]]] = [
+MODELS: list[tuple[str, list[str], list[tuple]]] = [
     ("one module three levels below the root", ["proj.a.b.c"], []),
     ("modules listed child-first", ["proj.a.b.c", "proj.a.b", "proj.a", "proj"], []),
     (
         "sibling names that are character prefixes, imports of a function, an unscanned and an external name",
         ["proj", "proj.a", "proj.a.m", "proj.ab", "proj.ab.x", "proj.b.c.d", "proj.b.c.e"],
-        [("proj.a.m", "proj.ab.x"), ("proj.a.m", "proj.ab.x.func"), ("proj.ab.x", "os.path"), ("proj.a.m", "proj.zz.q"), ("proj.b.c.d", "proj.b.c.e"), ("proj.b.c.e", "proj.a")],
+        [("proj.a.m", "proj.ab.x"), ("proj.a.m", "proj.ab.x.func"), ("proj.ab.x", "os.path"), ("proj.a.m", "proj.zz.q"), ("proj.b.c.d", "proj.b.c.e"), ("proj.b.c.e", "proj.a"),
+         # relative imports: (importer, relative module name, level, the module it resolves to)
+         ("proj.ab.x", "b.c.d", 2, "proj.b.c.d"), ("proj.b.c.d", "e", 1, "proj.b.c.e")],
     ),
     (
         "two packages that share ancestors, second one first",
@@ -260,8 +262,28 @@ def _imports(ev, ev_mod, repo: Repo, pairs: list[tuple[str, str]]) -> list:
     mod = repo.modules.get(IMPORT_TYPES)
     if mod is not None:
         ci = mod.classes.get("AbsoluteImport")
+    rel = mod.classes.get("RelativeImport") if mod is not None else None
     out = []
-    for importer, importee in pairs:
+    for pair in pairs:
+        if len(pair) == 4:
+            importer, name, level, target = pair
+            obj = None
+            if rel is not None:
+                try:
+                    obj = ev._construct(rel, [importer, name, None, level], {})
+                    if ev.apply(ev.getattr(obj, "importee", None), [], {}) != target:
+                        obj = None
+                except Exception:  # noqa: BLE001
+                    obj = None
+            if obj is None:
+                # idealised record of a relative import: the parents are those of the *relative* name
+                obj = ev_mod.NativeObj(
+                    f"<RelativeImport {importer} -> {target}>",
+                    {"importer": lambda importer=importer: importer, "importee": lambda target=target: target, "importer_parent_modules": lambda importer=importer: _prefixes(importer), "importee_parent_modules": lambda name=name: _prefixes(name)},
+                )
+            out.append(obj)
+            continue
+        importer, importee = pair
         obj = None
         if ci is not None:
             try:
@@ -333,7 +355,8 @@ def hierarchy_on_models(repo: Repo, graph_cls: ClassInfo, modules_param: str, im
                 want_edges = {(cut(a), cut(b)) for a, b in want_edges if cut(a) != cut(b)}
             got_nodes = set(g.nodes)
             inherits = {e for e, a in g.edges.items() if a.get("inherits") is True}
-            given = (f"level_limit={lim}, " if lim is not None else "") + f"modules {list(modules)}" + (f" and imports {[f'{a} -> {b}' for a, b in pairs]}" if pairs else "")
+            ends = [(p_[0], p_[-1]) for p_ in pairs]
+            given = (f"level_limit={lim}, " if lim is not None else "") + f"modules {list(modules)}" + (f" and imports {[f'{a} -> {b}' for a, b in ends]}" if pairs else "")
             if got_nodes - want_nodes:
                 extra = sorted(got_nodes - want_nodes)
                 return False, f"for {given} the graph gets the node(s) {extra[:3]}: not a scanned module nor an ancestor of one (names that are not files or directories of the scanned tree become modules)"
@@ -347,5 +370,15 @@ def hierarchy_on_models(repo: Repo, graph_cls: ClassInfo, modules_param: str, im
             if inherits - want_edges:
                 extra_e = sorted(inherits - want_edges)
                 return False, f"for {given} the graph gets the hierarchy edge(s) {extra_e[:3]}, which do not link a module to its direct parent"
+            # the imports between modules of the graph ("the same modules and imports"): one edge per import whose two ends are modules
+            cut_ = (lambda n: n) if lim is None else (lambda n, lim=lim: ".".join(n.split(".")[: lim + 1]))
+            want_imports = {(cut_(a), cut_(b)) for a, b in ends if cut_(a) in want_nodes and cut_(b) in want_nodes and cut_(a) != cut_(b)} - want_edges
+            got_imports = {e for e in g.edges if e not in inherits}
+            if want_imports - got_imports:
+                lost = sorted(want_imports - got_imports)
+                return False, f"for {given} the import edge(s) {lost[:3]} between two modules of the graph are missing"
+            if got_imports - want_imports:
+                odd = sorted(got_imports - want_imports)
+                return False, f"for {given} the graph gets the edge(s) {odd[:3]} that no import between two of its modules accounts for"
             done += 1
-    return True, f"the constructor evaluated on {done} model inputs (a module deep below the root alone, child-first order, prefix-named siblings, imports of functions / unscanned / external names, shared ancestors, list and tuple, level limits None / 0 / 1 / 2): nodes = modules and their ancestors, inherits edges = every (parent, child) pair"
+    return True, f"the constructor evaluated on {done} model inputs (a module deep below the root alone, child-first order, prefix-named siblings, imports of functions / unscanned / external names, shared ancestors, list and tuple, level limits None / 0 / 1 / 2): nodes = modules and their ancestors, inherits edges = every (parent, child) pair, import edges = imports between two modules"
